@@ -229,6 +229,14 @@ func (g *streamGen) extended() {
 // size incl. empty and nil).
 func ExtEvent(r *Rand, k val.Kind, n int, bad, special bool) val.Event {
 	nilPayload := false
+	if n < 0 && r.P(1, 24) {
+		// element counts at the boundaries of the length encodings (1-byte
+		// signed / unsigned, 2-byte), rarely the 16-bit ones
+		n = Pick(r, []int{23, 24, 25, 127, 128, 129, 200, 255, 256, 257})
+		if r.P(1, 12) {
+			n = Pick(r, []int{32767, 32768, 65535, 65536})
+		}
+	}
 	if n < 0 {
 		switch r.Intn(6) {
 		case 0:
